@@ -2,7 +2,7 @@ META = dict(
     level='exploration',
     rule=('cases = (route, source type, destination type, value[s]); routes: convert_type_fundamental directly over all ordered '
           'pairs of 15 integer types (bool only as source), arrays of length 1-3 with every element position carrying every boundary '
-          'class, stores/loads of tainted_volatile cells on mbox instances with lp32/wide/tiny ABIs, and for each of 13 integer types under each ABI the four call routes on the real invocation / callback path: invocation argument (plain and tainted) into a guest function written in the guest type, guest result back, callback argument from the guest, callback result to the guest. Values: all values for 8/16-bit '
+          'class, stores/loads of tainted_volatile cells on mbox instances with lp32/wide/tiny ABIs, and for each of 13 integer types under each ABI the four call routes on the real invocation / callback path: invocation argument (plain and tainted) into a guest function written in the guest type, guest result back, callback argument from the guest, callback result to the guest; a long FIELD of a registered struct moved as a whole (store, load, by-value argument, by-value result). Values: all values for 8/16-bit '
           'sources, boundary lattice for wider (thorough: all 2^32 values for 32-bit sources). Oracle: 128-bit value equality or abort '
           'iff unrepresentable. non-trivial = value outside [0,127] (where the outcome depends on the type pair); every case is distinct by construction.'),
     assumptions=['destination type bool from a non-bool source is out of scope (ABI never changes bool)',
